@@ -37,6 +37,9 @@ enum Kind {
     BorrowedOut,
     /// the same for stderr
     BorrowedErr,
+    /// a print whose middle argument's `Display` impl itself prints a whole record (re-entrant use
+    /// of the stream lock): `(outer goes to stderr, nested goes to stderr, outer through a macro)`
+    Nested(bool, bool, bool),
     SetGlobal(u8),
     GetGlobal,
 }
@@ -45,6 +48,8 @@ enum Kind {
 struct Call {
     kind: Kind,
     frags: Vec<String>,
+    /// fragments of the record printed from inside the outer call's Display argument
+    nested: Vec<String>,
 }
 
 #[derive(Clone, Debug)]
@@ -87,6 +92,34 @@ fn generate(scen_seed: u64) -> Scenario {
     if scen_seed >= FIRST_TOUCH_BASE || rng.chance(1, 8) {
         return Scenario { pass: false, register: false, first_touch: true, threads: vec![] };
     }
+    if rng.chance(1, 4) {
+        // re-entrancy: thread 0's calls print a nested record from inside a Display argument, to
+        // the same stream and to the other one; the other threads print to both streams meanwhile
+        let mut t0 = Vec::new();
+        for c in 0..rng.range(2, 3) {
+            let outer_err = rng.chance(1, 2);
+            // both same-stream and cross-stream nesting in every scenario
+            let inner_err = if c == 0 { outer_err } else if c == 1 { !outer_err } else { rng.chance(1, 2) };
+            t0.push(Call { kind: Kind::Nested(outer_err, inner_err, rng.chance(3, 4)), frags: frags(&mut rng, 0, c), nested: frags(&mut rng, 9, c) });
+        }
+        let mut threads = vec![t0];
+        for t in 1..rng.range(2, 3) {
+            let mut calls = Vec::new();
+            for c in 0..rng.range(2, 3) {
+                let kind = match rng.below(6) {
+                    0 => Kind::Print,
+                    1 => Kind::Println,
+                    2 => Kind::Eprint,
+                    3 => Kind::Eprintln,
+                    4 => Kind::WriteOut,
+                    _ => Kind::WritelnErr,
+                };
+                calls.push(Call { kind, frags: frags(&mut rng, t, c), nested: vec![] });
+            }
+            threads.push(calls);
+        }
+        return Scenario { pass: rng.chance(1, 3), register: false, first_touch: false, threads };
+    }
     let nthreads = rng.range(2, 4);
     let register = rng.chance(1, 3);
     let mut threads = Vec::new();
@@ -94,7 +127,7 @@ fn generate(scen_seed: u64) -> Scenario {
         let mut calls = Vec::new();
         for c in 0..rng.range(1, 3) {
             if register && rng.chance(1, 2) {
-                calls.push(Call { kind: if rng.chance(2, 3) { Kind::SetGlobal(*rng.pick(&[0u8, 1, 1, 3, 3])) } else { Kind::GetGlobal }, frags: vec![] });
+                calls.push(Call { kind: if rng.chance(2, 3) { Kind::SetGlobal(*rng.pick(&[0u8, 1, 1, 3, 3])) } else { Kind::GetGlobal }, frags: vec![], nested: vec![] });
             }
             let kind = match rng.below(13) {
                 0 => Kind::Print,
@@ -111,7 +144,20 @@ fn generate(scen_seed: u64) -> Scenario {
                 11 => Kind::BorrowedErr,
                 _ => Kind::LockedOutGroup,
             };
-            calls.push(Call { kind, frags: frags(&mut rng, t, c) });
+            calls.push(Call { kind, frags: frags(&mut rng, t, c), nested: vec![] });
+        }
+        // a thread's LAST record may end inside an escape sequence (a progress line that leaves the
+        // colour code for the next print to finish): whatever state that leaves anywhere, the other
+        // threads' records must still come out whole.  (Only the last one, so that an implementation
+        // that keeps one stream per thread is judged the same as one that builds a stream per call.)
+        if rng.chance(1, 3) {
+            if let Some(last) = calls.iter_mut().rev().find(|c| !c.frags.is_empty()) {
+                if !matches!(last.kind, Kind::LockedOutGroup | Kind::LockedErrGroup) {
+                    let n = last.frags.len();
+                    last.frags[n - 2] = ">".into();
+                    last.frags[n - 1] = (*rng.pick(&["\x1b[", "\x1b[38;5", "\x1b]0;title", "\x1b", "\x1bP1;2q#"])).into();
+                }
+            }
         }
         threads.push(calls);
     }
@@ -129,6 +175,23 @@ impl std::fmt::Display for Frags<'_> {
     fn fmt(&self, f: &mut std::fmt::Formatter<'_>) -> std::fmt::Result {
         for s in self.0 {
             f.write_str(s)?;
+        }
+        Ok(())
+    }
+}
+
+/// Prints a whole record of its own (through the print macros) while it is being formatted.
+struct NestedPrint<'a> {
+    frags: &'a [String],
+    err: bool,
+}
+impl std::fmt::Display for NestedPrint<'_> {
+    fn fmt(&self, _f: &mut std::fmt::Formatter<'_>) -> std::fmt::Result {
+        let fr = self.frags;
+        if self.err {
+            anstream::eprint!("{}{}{}", Frag(&fr[0]), Frag(&fr[1]), Frags(&fr[2..]));
+        } else {
+            anstream::print!("{}{}{}", Frag(&fr[0]), Frag(&fr[1]), Frags(&fr[2..]));
         }
         Ok(())
     }
@@ -196,6 +259,15 @@ fn run_calls(sc: &Scenario, t: usize, bad: &std::sync::Mutex<Vec<String>>) {
                 let mut l = anstream::stderr().lock();
                 write!(l, "{}", Frags(&f[..2])).unwrap();
                 l.write_all(f[2..].concat().as_bytes()).unwrap();
+            }
+            Kind::Nested(outer_err, inner_err, by_macro) => {
+                let n = NestedPrint { frags: &call.nested, err: inner_err };
+                match (outer_err, by_macro) {
+                    (false, true) => anstream::print!("{}{}{}", Frags(&f[..2]), n, Frags(&f[2..])),
+                    (true, true) => anstream::eprint!("{}{}{}", Frags(&f[..2]), n, Frags(&f[2..])),
+                    (false, false) => write!(anstream::stdout(), "{}{}{}", Frags(&f[..2]), n, Frags(&f[2..])).unwrap(),
+                    (true, false) => write!(anstream::stderr(), "{}{}{}", Frags(&f[..2]), n, Frags(&f[2..])).unwrap(),
+                }
             }
             Kind::SetGlobal(v) => choice_of(v).write_global(),
             Kind::GetGlobal => {
@@ -607,15 +679,49 @@ fn strip(s: &str) -> String {
     anstream::adapter::strip_str(s).to_string()
 }
 
-/// A call's contiguous blocks: (is_stderr, acceptable renderings).  A lock-held group is two
-/// calls, hence two blocks - the property is about single calls, not about `lock()` scopes.
-fn expected_all(sc: &Scenario, call: &Call) -> Vec<(bool, Vec<Vec<u8>>)> {
+/// Acceptable renderings of one contiguous block of output.
+type Forms = Vec<Vec<u8>>;
+/// A sequence of blocks a call contributes to one stream, in order.
+type Alt = Vec<Forms>;
+/// What one call contributes to one stream: any one of these alternatives.
+type Item = Vec<Alt>;
+
+/// A call's contributions: (is_stderr, item).  A lock-held group is two calls, hence two items -
+/// the property is about single calls, not about `lock()` scopes.
+fn expected_all(sc: &Scenario, call: &Call) -> Vec<(bool, Item)> {
     if matches!(call.kind, Kind::LockedOutGroup | Kind::LockedErrGroup) {
         let err = call.kind == Kind::LockedErrGroup;
-        let mk = |frags: &[String]| Call { kind: if err { Kind::Eprint } else { Kind::Print }, frags: frags.to_vec() };
-        return [mk(&call.frags[..2]), mk(&call.frags[2..])].iter().filter_map(|c| expected(sc, c)).collect();
+        let mk = |frags: &[String]| Call { kind: if err { Kind::Eprint } else { Kind::Print }, frags: frags.to_vec(), nested: vec![] };
+        return [mk(&call.frags[..2]), mk(&call.frags[2..])].iter().filter_map(|c| expected(sc, c)).map(|(e, f)| (e, vec![vec![f]])).collect();
     }
-    expected(sc, call).into_iter().collect()
+    if let Kind::Nested(outer_err, inner_err, _) = call.kind {
+        // a record printed from inside a Display argument of another print.  The nested call's
+        // bytes are contiguous; so are the outer call's - with the nested record inside them
+        // (formatting under the lock, as the unchanged tree does) or in front of them (an
+        // implementation that formats first and writes afterwards).  No other thread's bytes may
+        // land inside either.
+        let both = |s: &str| -> [Vec<u8>; 2] {
+            let (st, raw) = (strip(s).into_bytes(), s.as_bytes().to_vec());
+            if sc.pass { [raw, st] } else { [st, raw] }
+        };
+        let head = both(&call.frags[..2].concat());
+        let tail = both(&call.frags[2..].concat());
+        let whole = both(&call.frags.concat());
+        let inner = both(&call.nested.concat());
+        if outer_err != inner_err {
+            return vec![(outer_err, vec![vec![whole.to_vec()]]), (inner_err, vec![vec![inner.to_vec()]])];
+        }
+        let mut around = Vec::new();
+        for h in &head {
+            for n in &inner {
+                for t in &tail {
+                    around.push([&h[..], &n[..], &t[..]].concat());
+                }
+            }
+        }
+        return vec![(outer_err, vec![vec![around], vec![inner.to_vec(), whole.to_vec()]])];
+    }
+    expected(sc, call).map(|(e, f)| (e, vec![vec![f]])).into_iter().collect()
 }
 
 /// (is_stderr, acceptable renderings of the record)
@@ -637,27 +743,36 @@ fn expected(sc: &Scenario, call: &Call) -> Option<(bool, Vec<Vec<u8>>)> {
 }
 
 fn check_stream(sc: &Scenario, is_err: bool, data: &[u8]) -> Result<u64, String> {
-    let per_thread: Vec<Vec<Vec<Vec<u8>>>> = sc
+    let per_thread: Vec<Vec<Item>> = sc
         .threads
         .iter()
         .map(|calls| calls.iter().flat_map(|c| expected_all(sc, c)).filter(|(e, _)| *e == is_err).map(|(_, f)| f).collect())
         .collect();
     let mut next = vec![0usize; per_thread.len()];
+    // the alternative a thread's current item is in the middle of: (alternative, next block)
+    let mut cur: Vec<Option<(usize, usize)>> = vec![None; per_thread.len()];
     let mut pos = 0;
     let mut order = rng::Fnv::default();
     while pos < data.len() {
         let mut matched = None;
-        'find: for (t, recs) in per_thread.iter().enumerate() {
-            if next[t] < recs.len() {
-                for form in &recs[next[t]] {
-                    if data[pos..].starts_with(form) {
-                        matched = Some((t, form.len()));
-                        break 'find;
+        'find: for (t, items) in per_thread.iter().enumerate() {
+            if next[t] < items.len() {
+                let item = &items[next[t]];
+                let candidates: Vec<(usize, usize)> = match cur[t] {
+                    Some(c) => vec![c],
+                    None => (0..item.len()).map(|a| (a, 0)).collect(),
+                };
+                for (a, b) in candidates {
+                    for form in &item[a][b] {
+                        if data[pos..].starts_with(form) {
+                            matched = Some((t, a, b, form.len()));
+                            break 'find;
+                        }
                     }
                 }
             }
         }
-        let Some((t, len)) = matched else {
+        let Some((t, a, b, len)) = matched else {
             return Err(format!(
                 "{} is not a concatenation of whole records: at byte {pos} no thread's next record starts: {:?} (whole stream: {:?})",
                 if is_err { "stderr" } else { "stdout" },
@@ -667,11 +782,16 @@ fn check_stream(sc: &Scenario, is_err: bool, data: &[u8]) -> Result<u64, String>
         };
         order.byte(t as u8);
         pos += len;
-        next[t] += 1;
+        if b + 1 == per_thread[t][next[t]][a].len() {
+            next[t] += 1;
+            cur[t] = None;
+        } else {
+            cur[t] = Some((a, b + 1));
+        }
     }
-    for (t, recs) in per_thread.iter().enumerate() {
-        if next[t] != recs.len() {
-            return Err(format!("{}: {} record(s) of thread {t} missing", if is_err { "stderr" } else { "stdout" }, recs.len() - next[t]));
+    for (t, items) in per_thread.iter().enumerate() {
+        if next[t] != items.len() {
+            return Err(format!("{}: {} record(s) of thread {t} missing", if is_err { "stderr" } else { "stdout" }, items.len() - next[t]));
         }
     }
     Ok(order.0)
@@ -695,8 +815,20 @@ fn miri_run(miri_seed: u64, rate: &str, scen_seed: u64) -> std::io::Result<RunRe
 }
 
 fn miri_run_role(role: &str, miri_seed: u64, rate: &str, scen_seed: u64) -> std::io::Result<RunResult> {
+    // "childcap": the same program built with anstream's `test` feature, which routes the print
+    // macros through their capture path (std::print!/eprint! - what `cargo test` sees); a target
+    // directory of its own so that the two builds do not evict each other
+    let root = std::env::var("VERIF_ROOT").unwrap_or_else(|_| "/verif".to_string());
+    let capdir = format!("{root}/target/miri-capture");
+    let mut cargo_args: Vec<&str> = vec!["+nightly", "miri", "run", "--offline", "-q"];
+    let (role, capture) = if role == "childcap" { ("child", true) } else { (role, false) };
+    if capture {
+        cargo_args.extend_from_slice(&["--features", "capture", "--target-dir", &capdir]);
+    }
+    let seed_text = scen_seed.to_string();
+    cargo_args.extend_from_slice(&["--", role, &seed_text]);
     let mut child = Command::new("cargo")
-        .args(["+nightly", "miri", "run", "--offline", "-q", "--", role, &scen_seed.to_string()])
+        .args(&cargo_args)
         .current_dir(format!("{}/c19/miri-sim", std::env::var("VERIF_ROOT").unwrap_or_else(|_| "/verif".to_string())))
         .env("MIRIFLAGS", format!("-Zmiri-seed={miri_seed} -Zmiri-preemption-rate={rate}"))
         .env("CARGO_NET_OFFLINE", "true")
@@ -979,6 +1111,19 @@ fn drive17(seed: u64, count: u64, report: &str) -> i32 {
     drive_role("child17", judge17, seed, count, report)
 }
 
+/// `drivecap <seed> <count> <report>`: the print scenarios with the macros' capture path compiled in.
+fn drivecap(seed: u64, count: u64, report: &str) -> i32 {
+    drive_role("childcap", judge_cap, seed, count, report)
+}
+
+fn judge_cap(scen_seed: u64, r: &RunResult) -> Result<u64, (String, String)> {
+    judge(&generate(scen_seed), r)
+}
+
+fn replaycap(path: &str) -> i32 {
+    replay_role(path, "childcap", judge_cap, "C19")
+}
+
 /// `drive09 <seed> <count> <report>`: the C09 "one decision reads the world once" clause under Miri.
 fn drive09(seed: u64, count: u64, report: &str) -> i32 {
     drive_role("child09", judge09, seed, count, report)
@@ -1120,6 +1265,8 @@ fn main() {
         Some("child") => child(p(2)),
         Some("child17") => child17(p(2)),
         Some("child09") => child09(p(2)),
+        Some("drivecap") if args.len() >= 5 => drivecap(p(2), p(3), &args[4]),
+        Some("replaycap") if args.len() >= 3 => replaycap(&args[2]),
         Some("drive09") if args.len() >= 5 => drive09(p(2), p(3), &args[4]),
         Some("replay09") if args.len() >= 3 => replay09(&args[2]),
         Some("drive17") if args.len() >= 5 => drive17(p(2), p(3), &args[4]),
